@@ -231,6 +231,31 @@ Definition g_no_explicit_none (c : circuit) : bool :=
 (* scope of the property: delays that round to at least two steps *)
 Definition g_delays_ge2 (c : circuit) : bool :=
   forallb (fun e => match ed e with Delay d => Nat.leb 2 (steps_of d (cdt c)) | _ => true end) (cedges c).
+(* D101 (open): an operator on the SAME node as a buffered source operator that reads the source variable through the operator graph
+   (a "tap": op2 with w' = x next to op1 defining x) gets the operator's re-pointed output `x_buffered`, i.e. a delayed value (the
+   last `_out{i}` buffer when vectorize=False; slot number <unit> of the buffered vector, or ValueError when the slot count differs from
+   the unit count, when vectorize=True).  In this model a tap is an edge WITHOUT delay of weight 1 from the source node to an extra
+   integrator node: that is what the specification and the repaired mechanism (fixes/fix_D101.diff: the operator's output is left
+   alone) compute.  The defective read is NOT modelled; this guard delimits the class.  `taps` = positions of the tap edges in cedges.
+   fixed_tap: false = the code as it is. *)
+Definition fixed_tap : bool := false.
+Definition dedge : edge := mkEdge 0 0 0%Qc NoKey.
+Definition g_no_tap_on_buffered (taps : list nat) (c : circuit) : bool :=
+  fixed_tap || forallb (fun i => negb (gadd c (skey c (nth i (cedges c) dedge)))) taps.
+
+(* D103 (open): vectorize=True, the frontend's _group_edges builds the per-edge lists of a group (same source class variable, target
+   class variable, delayed?) key by key from the edge dictionaries; an edge that lacks an entry other edges of its group have (here:
+   `delay` present as None on one undelayed edge, absent on another) leaves the lists out of step: KeyError / shape mismatch, or
+   silently misassigned values.  Not modelled; the guard delimits the class; repaired by fixes/fix_D103.diff (missing entries
+   are padded with None).  fixed_group_keys: false = the code as it is. *)
+Definition fixed_group_keys : bool := false.
+Definition has_delay_key (e : edge) : bool := match ed e with NoKey => false | _ => true end.
+Definition g_uniform_keys (c : circuit) : bool :=
+  fixed_group_keys || negb (cvec c) ||
+  forallb (fun e => forallb (fun e' => negb (Nat.eqb (skey c e) (skey c e') && Nat.eqb (tkey c e) (tkey c e') &&
+                                              Bool.eqb (is_delayed e) (is_delayed e')) ||
+                                       Bool.eqb (has_delay_key e) (has_delay_key e')) (cedges c)) (cedges c).
+
 (* hypotheses of the partial theorem.  g_no_explicit_none is not among them: an edge with `delay: None` written out that
    ends up buffered already violates g_no_undelayed_sibling; it is kept as a separate guard to classify that class *)
 Definition guards (c : circuit) : bool :=
